@@ -14,6 +14,7 @@ import (
 	"pgregory.net/rapid"
 
 	"github.com/ipfs/go-graphsync"
+	gsimpl "github.com/ipfs/go-graphsync/impl"
 	gsmsg "github.com/ipfs/go-graphsync/message"
 
 	"verif/harness/dagen"
@@ -41,6 +42,7 @@ type Case struct {
 	Hold    string      `json:"hold"`     // none pause gate
 	HoldAt  int         `json:"hold_at"`  // block index (1-based) at which the response is held
 	TwoReqs bool        `json:"two_reqs"` // A also has a second, unheld request
+	Workers int         `json:"workers"`  // MaxInProgressIncomingRequests (0 = default): with 1 and a held first request the second one stays queued
 	Intr    []Intrusion `json:"intrusions"`
 }
 
@@ -54,6 +56,10 @@ func gen(t *rapid.T) Case {
 	c.Hold = rapid.SampledFrom([]string{"pause", "pause", "gate", "gate", "none"}).Draw(t, "hold")
 	c.HoldAt = rapid.IntRange(1, 4).Draw(t, "holdat")
 	c.TwoReqs = rapid.IntRange(0, 2).Draw(t, "two") == 0
+	if rapid.IntRange(0, 2).Draw(t, "oneworker") == 0 {
+		c.Workers = 1
+		c.TwoReqs = true
+	}
 	n := rapid.IntRange(1, 3).Draw(t, "nintr")
 	for i := 0; i < n; i++ {
 		c.Intr = append(c.Intr, Intrusion{
@@ -84,6 +90,7 @@ type result struct {
 	events     string // listener events for peer A
 	state      string // PeerState(A) at the end
 	liveAtIntr int
+	statesHit  []string
 	panicS     string
 }
 
@@ -104,7 +111,11 @@ func one(c Case, b *dagen.Built, withIntruder bool) result {
 				return nil
 			}
 		}
-		rs := w.AddInstance(scen.RespID, store)
+		var iopts []gsimpl.Option
+		if c.Workers > 0 {
+			iopts = append(iopts, gsimpl.MaxInProgressIncomingRequests(uint64(c.Workers)))
+		}
+		rs := w.AddInstance(scen.RespID, store, iopts...)
 		scen.ValidateAll(rs)
 		w.AddScripted(peerA)
 		w.AddScripted(peerB)
@@ -160,8 +171,9 @@ func one(c Case, b *dagen.Built, withIntruder bool) result {
 					target = reqID(1)
 				}
 				st := rs.Impl.PeerState(peerA).IncomingState.RequestStates
-				if _, live := st[target]; live {
+				if state, live := st[target]; live {
 					r.liveAtIntr++
+					r.statesHit = append(r.statesHit, state.String())
 				}
 				switch in.Kind {
 				case "cancel":
@@ -279,6 +291,9 @@ func judge(c Case) *pbt.Verdict {
 	a := one(c, b, false)
 	x := one(c, b, true)
 	v.Label("hold-" + c.Hold)
+	for _, st := range x.statesHit {
+		v.Label("intrusion-hits-" + strings.ReplaceAll(st, " ", "-") + "-response")
+	}
 	if x.liveAtIntr > 0 {
 		v.Label("intrusion-hits-live-response")
 	}
